@@ -1,5 +1,6 @@
 import HdVerif.Proofs.Codec
 import HdVerif.Generated.T13n
+import HdVerif.Generated.T13d
 /-! C07: the hand-written arms of `Model/Codec.encodeFrame` / `decodeFrame` use exactly the expressions the current source of
 `frame.encode_frame` / `frame.decode_frame` contains (regenerated as `Generated/T13n.lean` and the tables of `T13a` on every run).
 A change of the memory order in which the frame is flattened (before `pack_bits`, before `tobytes`), of the byte order of the
@@ -109,5 +110,23 @@ theorem syntax_tables_tie :
     simp only [encodeFrameCompressedTransferSyntaxes, jpegBaseline, jpegLs, jpegLsNear, j2kLossless, j2k, rle, List.mem_cons,
       List.not_mem_nil, or_false]
     try (constructor <;> intro h <;> rcases h with h | h | h | h | h | h <;> simp [h])
+
+/-! ### optional parameters -/
+
+/-- **bridge, defaults**: a frame encoded with optional arguments left out is decoded with the same arguments left out, so every
+    default the two functions share must agree; and they are the values the harness puts into the model's request for an omitted
+    argument (pixel representation 0 = unsigned, no planar configuration, frame index 0) -/
+theorem defaults_tie :
+    (∀ k d1 d2, ("encode_frame", k, d1) ∈ frameDefaults → ("decode_frame", k, d2) ∈ frameDefaults → d1 = d2) ∧
+    ("encode_frame", "pixel_representation", "0") ∈ frameDefaults ∧ ("decode_frame", "pixel_representation", "0") ∈ frameDefaults ∧
+    ("encode_frame", "planar_configuration", "None") ∈ frameDefaults ∧ ("decode_frame", "planar_configuration", "None") ∈ frameDefaults ∧
+    ("decode_frame", "index", "0") ∈ frameDefaults ∧ frameDefaults.length = 5 := by
+  refine ⟨?_, by decide, by decide, by decide, by decide, by decide, by decide⟩
+  intro k d1 d2 h1 h2
+  simp only [frameDefaults, List.mem_cons, Prod.mk.injEq, List.not_mem_nil, or_false] at h1 h2
+  rcases h1 with ⟨h, _⟩ | ⟨h, _⟩ | ⟨h, _⟩ | ⟨h, _⟩ | ⟨h, _⟩ <;> try (exact absurd h (by decide))
+  all_goals
+    rcases h2 with ⟨h', _⟩ | ⟨h', _⟩ | ⟨h', _⟩ | ⟨h', _⟩ | ⟨h', _⟩ <;> try (exact absurd h' (by decide))
+  all_goals simp_all
 
 end HdVerif.Codec
